@@ -6,6 +6,9 @@ from .. import mutrules as M
 def run(prog, rep):
     from .. import mutrules as _M
     rep.attempt(_M.session_boundary, prog, rep)
+    # the table the open object holds is its own: a class-level / shared list is the table of whichever file was entered last
+    from .c17 import container_own_state
+    rep.attempt(container_own_state, prog, rep)
     ct = Container(prog)
     rep.explanation = (
         "dirty-entry: forward must-pass-through on the mutators' CFGs - every store into the table or into a field of "
